@@ -144,6 +144,10 @@ def size_payload(rng, target, shape):
     else:   # 'many-lines'
         lines = known + [b''] + [b'x' * rng.randrange(0, 30) for _ in range(rng.randrange(1, 6))]
     room = target - stored(lines)
+    while room > 902 and shape != 'many-lines':
+        # the limit is to be crossed on the last line; no line may come near the 1000 octet line limit
+        lines.insert(len(lines) if shape != 'header-only' else 0, (b'X-Fill: ' if shape in ('header-only', 'one-line') else b'') + b'f' * 890)
+        room = target - stored(lines)
     if shape == 'many-lines':
         while room > 40:
             n = rng.randrange(2, 40); lines.append(b'y' * (n - 2)); room -= n
